@@ -24,7 +24,6 @@ package symgo
 //     arguments (SuDate.String): exact output, symbolic digits (via the strconv machinery).
 
 import (
-	"os"
 	"fmt"
 	"go/token"
 	"go/types"
@@ -720,20 +719,6 @@ func init() {
 		}
 		if n, ok := c33Civil[[3]*Term{c33norm(year), c33norm(month), c33norm(day)}]; ok && c33bounded(n, c33CivilLo, c33CivilHi) {
 			return mkIntVal(types.Uint64, wrapKind(types.Uint64, n))
-		}
-		if f := os.Getenv("C33_DEBUG"); f != "" {
-			dbg, _ := os.OpenFile(f, os.O_APPEND|os.O_CREATE|os.O_WRONLY, 0644)
-			defer dbg.Close()
-			ky := [3]*Term{c33norm(year), c33norm(month), c33norm(day)}
-			n, ok := c33Civil[ky]
-			fmt.Fprintf(dbg, "c33 memo miss: found=%v ids=%d,%d,%d memo=%d\n", ok, ky[0].id, ky[1].id, ky[2].id, len(c33Civil))
-			if ok {
-				i := iv(n)
-				fmt.Fprintf(dbg, "   n interval %v %v  lo=%v hi=%v\n", i.lo, i.hi, c33CivilLo, c33CivilHi)
-			}
-			for k := range c33Civil {
-				fmt.Fprintf(dbg, "   key %d,%d,%d\n", k[0].id, k[1].id, k[2].id)
-			}
 		}
 		days := c33DateToAbsDays(year, month, day)
 		return mkIntVal(types.Uint64, wrapKind(types.Uint64, days))
